@@ -103,6 +103,18 @@ class LossyFixInterp(LossyInterp):
         if fname.endswith('f64>::max'):
             x, y = self.operand(fr, args[0]).v, self.operand(fr, args[1]).v
             return Fx(z3.If(x >= y, x, y))
+        if fname.endswith('f64>::min'):
+            x, y = self.operand(fr, args[0]).v, self.operand(fr, args[1]).v
+            return Fx(z3.If(x <= y, x, y))
+        if fname.endswith('f64>::floor'):
+            x = self.operand(fr, args[0]).v
+            return Fx((x >> 6) << 6)             # arithmetic shift = floor
+        if fname.endswith('f64>::trunc'):
+            x = self.operand(fr, args[0]).v
+            return Fx(z3.If(x < 0, -(((-x) >> 6) << 6), (x >> 6) << 6))
+        if fname.endswith('f64>::abs'):
+            x = self.operand(fr, args[0]).v
+            return Fx(z3.If(x < 0, -x, x))
         return LossyInterp.call(self, fr, fname, args)
 
 
